@@ -122,7 +122,7 @@ class Item:
         self.end = end
         self.path = path
         h = header.strip()
-        h2 = re.sub(r'^(pub(\([^)]*\))?\s+)?(default\s+)?(unsafe\s+)?(const\s+)?(async\s+)?(extern\s+"[^"]*"\s+)?', '', h)
+        h2 = re.sub(r'^(pub(\([^)]*\))?\s+)?(default\s+)?(unsafe\s+)?(const\s+(?=fn\b|unsafe\b|async\b|extern\b))?(async\s+)?(extern\s+"[^"]*"\s+)?', '', h)
         m = re.match(r'(impl|trait|fn|struct|enum|mod|use|type|const|static|macro_rules!|extern crate|union)\b', h2)
         self.kind = m.group(1) if m else '?'
         nm = None
